@@ -1,4 +1,4 @@
-import Wip.ModsInfo
+import Cutadapt.Proofs.ModsInfo
 /-! The pipeline assembly (`makeSteps`, `makeModsSingle`, `makeSingle`): shape of the lists it builds. Core Lean only.
     The proofs walk through the join points of the `do` blocks (`extract_lets`), innermost first. -/
 namespace Cutadapt
@@ -307,5 +307,40 @@ theorem makeModsSingle_shape (o : Opts) (ads : List Matchable) (mods : List SMod
     · by_cases hr : o.revcomp = true
       · right; left; simp [he, hr]
       · right; right; simp [he, hr]
+
+theorem revcompStages_zero (l : List SMod) (h : ∀ m ∈ l, m.isRevcomp = false) : revcompStages l = 0 := by
+  unfold revcompStages
+  rw [List.length_eq_zero_iff, List.filter_eq_nil_iff]
+  intro m hm; simp [h m hm]
+
+/-- **The modifier lists the CLI builds satisfy the hypotheses of the pipeline theorems**: at most one
+    reverse-complementing stage, a single zero-capper (iff `-z`), and every modifier is covered as soon as the one cutter
+    built from `--action`, `--times` and the adapters is -/
+theorem makeModsSingle_hyps (o : Opts) (ads : List Matchable) (mods : List SMod) (h : makeModsSingle o ads = .ok mods) :
+    revcompStages mods ≤ 1 ∧ zeroCapBases mods = (if o.zeroCap then [o.qualityBase.toNat] else []) ∧
+    ∀ s, CutterOK s ⟨ads, o.times, o.action⟩ → ∀ m ∈ mods, m.OK s := by
+  obtain ⟨pre, post, hall, hz, hform⟩ := makeModsSingle_shape o ads mods h
+  have hpre : ∀ m ∈ pre, m.isRevcomp = false := fun m hm => (hall m (List.mem_append_left _ hm)).1
+  have hpost : ∀ m ∈ post, m.isRevcomp = false := fun m hm => (hall m (List.mem_append_right _ hm)).1
+  have hz' : ∀ x : SMod, x.capBases = [] → zeroCapBases (pre ++ x :: post) = zeroCapBases (pre ++ post) := by
+    intro x hx; simp [zeroCapBases, List.flatMap_append, hx]
+  have hcount : ∀ x : SMod, revcompStages (pre ++ x :: post) ≤ 1 := by
+    intro x
+    have a := revcompStages_zero pre hpre
+    have b := revcompStages_zero post hpost
+    unfold revcompStages at a b ⊢
+    rw [List.filter_append, List.length_append, a, List.filter_cons]
+    split <;> simp [b]
+  have hok : ∀ s (x : SMod), x.OK s → ∀ m ∈ pre ++ x :: post, m.OK s := by
+    intro s x hx m hm
+    simp only [List.mem_append, List.mem_cons] at hm
+    rcases hm with hm | rfl | hm
+    · exact (hall m (List.mem_append_left _ hm)).2 s
+    · exact hx
+    · exact (hall m (List.mem_append_right _ hm)).2 s
+  rcases hform with rfl | rfl | rfl
+  · exact ⟨by rw [revcompStages_zero _ (fun m hm => (hall m hm).1)]; omega, hz, fun s _ m hm => (hall m hm).2 s⟩
+  · exact ⟨hcount _, by rw [hz' _ rfl, hz], fun s hc => hok s _ hc⟩
+  · exact ⟨hcount _, by rw [hz' _ rfl, hz], fun s hc => hok s _ hc⟩
 
 end Cutadapt
